@@ -963,6 +963,23 @@ def step_newvar(R):
             first = h.post["localScope"].get(ins.Reference)
             byname = h.post["localScope"].get("t")
             fr = frame_goals(h, writes_local=[ins.Reference, "t"])
+            # the program writes into the first instance (element / member stores work in place) before the declaration executes again
+
+            def scribble(o):
+                if isinstance(o, list):
+                    for i, x in enumerate(o):
+                        if isinstance(x, (list, dict)):
+                            scribble(x)
+                        else:
+                            o[i] = 77
+                elif isinstance(o, dict):
+                    for kk, x in list(o.items()):
+                        if isinstance(x, (list, dict)):
+                            scribble(x)
+                        else:
+                            o[kk] = 77
+            first_zero = irsem.same_structure(first, irsem.zero(t))
+            scribble(first)
             h.pre = dict(h.post)
             h.pre["currentInstruction"] = h.pc
             h.step()
@@ -991,7 +1008,9 @@ def step_newvar(R):
         if err is not None:
             R.check(f"VM.newvar.total[{label}]", fn, False, detail=f"raised {type(err).__name__}: {err}", replay=rp)
             continue
-        R.check(f"VM.newvar.zero[{label}]", fn, irsem.same_structure(first, irsem.zero(t)), detail=f"fresh {label} is {first!r}, expected {irsem.zero(t)!r}", replay=rp)
+        R.check(f"VM.newvar.zero[{label}]", fn, first_zero, detail=f"fresh {label} is not the zero value {irsem.zero(t)!r}", replay=rp)
+        R.check(f"VM.newvar.zero-again[{label}]", fn, irsem.same_structure(second, irsem.zero(t)),
+                detail=f"the declaration executed a second time, after the program wrote into the first instance, yields {second!r} instead of the zero value (locals are re-initialised each time their declaration executes)")
         ids = irsem.mutable_ids(first, t)
         R.check(f"VM.newvar.no-internal-aliasing[{label}]", fn, len(ids) == len(set(ids)), detail=f"two slots of the fresh {label} are the same object (writing one element changes another)", replay=rp)
         R.check(f"VM.newvar.name-and-ref[{label}]", EXEC, byname is first, detail="NEW_VARIABLE must bind the name and the reference to the same value")
